@@ -41,6 +41,8 @@ class Engine:
         self.solver = z3.Solver()
         self.solver.set('timeout', 60000)
         self.retried = 0
+        self.xrate = int(os.environ.get('VERIF_XCHECK_RATE', '199'))
+        self.xq = []
         self.last_retry_model = None
         if seed:
             self.solver.set('random_seed', seed % (2 ** 31))
@@ -78,6 +80,14 @@ class Engine:
         else:
             self.last_retry_model = None
         self.qtime += time.time() - t
+        if self.xrate and r != z3.unknown and self.nqueries % self.xrate == 0 and len(self.xq) < 4:
+            # sampled for the second-solver cross-check (driver runs cvc5 on it)
+            sx = z3.Solver()
+            for a in self.solver.assertions():
+                sx.add(a)
+            for a in c:
+                sx.add(a)
+            self.xq.append(('sat' if r == z3.sat else 'unsat', sx.to_smt2()))
         if r == z3.unknown:
             raise ModelGap('solver returned unknown (time limit 60 s + 180 s retry): ' + self.solver.reason_unknown())
         return r == z3.sat
